@@ -191,6 +191,11 @@ fn mutate(g: &mut SplitMix64, s: &str, others: &[String]) -> String {
     String::from_utf8_lossy(&v).to_string()
 }
 
+/// at most n characters of s (never cuts inside a multi-byte character)
+fn clip(s: &str, n: usize) -> String {
+    s.chars().take(n).collect()
+}
+
 pub fn run(ctx: &Ctx) {
     let mut rep = Report::new("C04", &ctx.tier, ctx.seed);
     rep.rule = "stream (a): valid serialisations of every text kind of every backend (tokens, keys, ids, PIE / PBKW / sealed keys) mutated by bit flips of the decoded data, truncation, extension, header relabel, segment swaps, zero / ones fill, character edits; stream (b): random strings over all bytes (valid UTF-8), and every header followed by random data of decoded length 0..700 (random / zero / ones). Every string goes through all 17 FromStr impls of all six backends (parse, Display, serde) and through Key::from_str + to_string / id / clone / public_key / sign / seal-to / encrypt / wrap, decrypt, verify, PIE and PBKW unwrap (cost budget <= 64 MiB, <= 3 passes, <= 10000 iterations), unseal-key, each under catch_unwind; distinct = (backend, stream, text kind, mutation)".into();
@@ -235,7 +240,7 @@ pub fn run(ctx: &Ctx) {
     let all_valid: Vec<String> = valid.iter().flatten().cloned().collect();
     let report_panic = |rep: &mut Report, b: &Backend, stream: &str, s: &str, ops: Vec<String>| {
         for op in ops {
-            rep.violation(&format!("c04.{}.panic.{}", b.name, op.split(' ').next().unwrap_or("op")), format!("{} panicked in [{op}] on the {stream} input {:?}", b.name, &s[..s.len().min(120)]), json!({"backend": b.name, "input": s, "op": op, "stream": stream}));
+            rep.violation(&format!("c04.{}.panic.{}", b.name, op.split(' ').next().unwrap_or("op")), format!("{} panicked in [{op}] on the {stream} input {:?}", b.name, clip(s, 120)), json!({"backend": b.name, "input": s, "op": op, "stream": stream}));
         }
     };
     if let Some(path) = &ctx.replay {
@@ -293,7 +298,7 @@ pub fn run(ctx: &Ctx) {
             rep.evaluations += 1;
             let o = (t.probe)(s);
             if o.res == Err("panic".to_string()) {
-                rep.violation(&format!("c04.{}.panic.parse", t.backend), format!("{} {} FromStr / Display / serde panicked on {:?}", t.backend, t.kind, &s[..s.len().min(120)]), json!({"backend": t.backend.trim_start_matches("paseto-"), "input": s, "op": "parse", "stream": stream}));
+                rep.violation(&format!("c04.{}.panic.parse", t.backend), format!("{} {} FromStr / Display / serde panicked on {:?}", t.backend, t.kind, clip(s, 120)), json!({"backend": t.backend.trim_start_matches("paseto-"), "input": s, "op": "parse", "stream": stream}));
             } else if o.res.is_ok() {
                 rep.nontrivial(format!("{}|{}|{}|parsed", t.backend, stream, t.kind));
             }
@@ -329,7 +334,7 @@ pub fn run(ctx: &Ctx) {
     }
     if rep.samples.is_empty() {
         for (s, st) in inputs.iter().step_by(inputs.len() / 6 + 1) {
-            rep.sample(json!({"stream": st, "input": &s[..s.len().min(100)]}));
+            rep.sample(json!({"stream": st, "input": s.chars().take(100).collect::<String>()}));
         }
     }
     rep.model_prim_calls = m.prim_calls();
